@@ -86,6 +86,7 @@ type c08Rec struct {
 	Wheres  []string `json:"wheres"`
 	Errs    []string `json:"errs"`
 	MaxMs   int      `json:"maxms"`
+	TotMs   int      `json:"totms"`
 }
 
 func (s c08Shape) key() string {
@@ -421,6 +422,26 @@ func selectOps(all []c08Op, s c08Shape) []c08Op {
 	return out
 }
 
+// bigOps: in the quick tier inputs above 256 KB (the 10^4 object chains, the 10^5 level nestings) get the reading and
+// validating entry points plus the first two that traverse the relation; the thorough tier runs everything.
+var bigOps = map[string]bool{"read-relaxed": true, "validate-relaxed": true, "validate-strict": true, "optimize": true, "info": true}
+
+func selectBigOps(sel []c08Op, s c08Shape) []c08Op {
+	extra := map[string]bool{}
+	for i, n := range relOps[s.Rel] {
+		if i < 2 {
+			extra[n] = true
+		}
+	}
+	var out []c08Op
+	for _, o := range sel {
+		if bigOps[o.name] || extra[o.name] {
+			out = append(out, o)
+		}
+	}
+	return out
+}
+
 func mutOps(target string) []c08Op {
 	file := func(e *c08Env, name string, d []byte) string {
 		p := filepath.Join(e.dir, name)
@@ -529,6 +550,7 @@ func c08Child() {
 			op.run(e.bases["classic"], e)
 		}()
 	}
+	brk := &breaker{path: h.Arg("--breaker")}
 	wd := newWatchdog()
 	timeouts := map[int]int{} // case -> operations that ran out of CPU budget so far (from --timeouts on a restart)
 	if v := h.Arg("--timeouts"); v != "" {
@@ -557,12 +579,23 @@ func c08Child() {
 			ops = mutOps(c.Shape.Target)
 		} else if opsMode == "core" && (c.Shape.Fam == "graph" || c.Shape.Fam == "fun" || c.Shape.Fam == "outline" || c.Shape.Fam == "depth") {
 			ops = selectOps(pops, c.Shape)
+			if len(data) > 256<<10 {
+				ops = selectBigOps(ops, c.Shape)
+			}
 		}
 		for k, op := range ops {
 			if cio.skip(k + 1) {
 				continue
 			}
 			r := c08OpRec{Idx: idx, Op: op.name}
+			if (c.Cyclic || c.Revisit) && brk.broken(relKey(c.Shape), op.name) {
+				// this entry point already died or ran out of budget on several shapes of this relation (reported): skip
+				cio.begin(idx, k+1, fmt.Sprintf("%s:%d", op.name, len(data)))
+				r.Outcome = "notrun"
+				b, _ := json.Marshal(r)
+				cio.record(b)
+				continue
+			}
 			if timeouts[idx] >= 2 {
 				// two operations already exceeded their budget on this input: the rest is not run (and not judged)
 				cio.begin(idx, k+1, fmt.Sprintf("%s:%d", op.name, len(data)))
@@ -600,6 +633,41 @@ func c08Child() {
 	})
 }
 
+func relKey(s c08Shape) string {
+	if s.Fam == "outline" {
+		return "outline"
+	}
+	return s.Fam + ":" + s.Rel + s.Target + s.Base
+}
+
+// breaker is the set of (relation, operation) pairs that timed out on breakerK shapes already; the parent appends to
+// the file, the children re-read it when it has grown.
+type breaker struct {
+	path string
+	size int64
+	set  map[string]bool
+}
+
+const breakerK = 3
+
+func (b *breaker) broken(rel, op string) bool {
+	if b.path == "" {
+		return false
+	}
+	if st, err := os.Stat(b.path); err == nil && st.Size() != b.size {
+		b.size = st.Size()
+		b.set = map[string]bool{}
+		if data, err := os.ReadFile(b.path); err == nil {
+			for _, ln := range strings.Split(string(data), "\n") {
+				if ln != "" {
+					b.set[ln] = true
+				}
+			}
+		}
+	}
+	return b.set[rel+"|"+op]
+}
+
 func trimStr(s string, n int) string {
 	if len(s) > n {
 		return s[:n]
@@ -628,10 +696,14 @@ func c08Main() {
 	byCase := make([][]c08OpRec, len(cases))
 	dead := 0
 	cpuMs := h.ArgInt("--cpu-ms", 1500)
+	brkPath := out + ".breaker"
+	os.WriteFile(brkPath, nil, 0o644)
+	defer os.Remove(brkPath)
+	brkCount := map[string]int{}
 	r := &runner{sub: "c08-child", n: len(cases), workers: workers,
-		confirmArgs: []string{"--cpu-ms", fmt.Sprint(4 * cpuMs)},
+		confirmArgs: []string{"--cpu-ms", fmt.Sprint(3 * cpuMs)},
 		args: []string{"--in", in, "--repo", repo, "--mutk", h.Arg("--mutk"), "--trunck", h.Arg("--trunck"), "--maxstack-mb", h.Arg("--maxstack-mb"),
-			"--cpu-ms", h.Arg("--cpu-ms"), "--cpu-ns-per-byte", h.Arg("--cpu-ns-per-byte"), "--ops", h.Arg("--ops")},
+			"--cpu-ms", h.Arg("--cpu-ms"), "--cpu-ns-per-byte", h.Arg("--cpu-ns-per-byte"), "--ops", h.Arg("--ops"), "--breaker", brkPath},
 		env: []string{"GOMAXPROCS=2"},
 		deadline: func(idx int, op string) time.Duration {
 			// The child enforces a CPU time budget proportional to the input size itself; this wall clock bound is the
@@ -663,6 +735,21 @@ func c08Main() {
 			mu.Lock()
 			byCase[d.Idx] = append(byCase[d.Idx], o)
 			dead++
+			{
+				// any kind of death counts: after breakerK deaths of an entry point on shapes of one relation it is
+				// no longer run on the remaining cyclic shapes of that relation
+				k := relKey(cases[d.Idx].Shape) + "|" + name
+				brkCount[k]++
+				if brkCount[k] == breakerK {
+					if f, err := os.OpenFile(brkPath, os.O_APPEND|os.O_WRONLY, 0o644); err == nil {
+						f.WriteString(k + "\n")
+						f.Close()
+					}
+				}
+			}
+			if h.Arg("--verbose") == "1" {
+				fmt.Fprintf(os.Stderr, "dead: case %d %s %s %s [%s]\n", d.Idx, name, d.Kind, d.Where, cases[d.Idx].Shape.key())
+			}
 			mu.Unlock()
 		}}
 	r.run()
@@ -701,6 +788,7 @@ func c08Main() {
 			if o.Ms > rec.MaxMs {
 				rec.MaxMs = o.Ms
 			}
+			rec.TotMs += o.Ms
 			nops++
 		}
 		b, _ := json.Marshal(rec)
